@@ -2,10 +2,10 @@ SPECIFICATION Spec
 CONSTANTS
   MODE = "reduce"
   K = 2
-  NF = 2
+  NF = 3
   NG = 0
-  PF = "p2s"
-  TF = "tp2s"
+  PF = "p2one"
+  TF = "tp2one"
   PG = "p2s"
   TG = "t22c"
   LAYOUTS = {"dfs", "low"}
